@@ -152,11 +152,11 @@ func isMapType(t types.Type) bool {
 
 // operand describes a pure operand.
 type operand struct {
-	pure    bool
-	shared  bool   // some hop on the way can be reached by more than one task
-	label   string // stable, type based name of the location
-	sync    bool   // a lock, pool or atomic (or something inside one): its methods are the synchronisation
-	typ     types.Type
+	pure   bool
+	shared bool   // some hop on the way can be reached by more than one task
+	label  string // stable, type based name of the location
+	sync   bool   // a lock, pool or atomic (or something inside one): its methods are the synchronisation
+	typ    types.Type
 }
 
 // classify walks a pure operand chain.
